@@ -97,6 +97,7 @@ type Exec struct {
 	lockDiscipline bool
 	funcIds        map[string]int64
 	strContents    map[int]*Content
+	guarded        map[string]bool
 	findings       []*Finding
 }
 
@@ -230,7 +231,14 @@ func (x *Exec) symbolic(st *State, t types.Type, name string, pre bool, depth in
 	case *types.Struct:
 		sv := &StructV{T: t}
 		for i := 0; i < u.NumFields(); i++ {
-			sv.Fields = append(sv.Fields, x.symbolic(st, u.Field(i).Type(), name+"."+u.Field(i).Name(), pre, depth+1))
+			fv := x.symbolic(st, u.Field(i).Type(), name+"."+u.Field(i).Name(), pre, depth+1)
+			if f, ok := fv.(*FuncV); ok {
+				// function-valued fields are identified by their origin: <pkg>.<Type>.<field>
+				if n, isNamed := t.(*types.Named); isNamed && n.Obj().Pkg() != nil {
+					f.Name = shortPkg(n.Obj().Pkg().Path()) + "." + n.Obj().Name() + "." + u.Field(i).Name()
+				}
+			}
+			sv.Fields = append(sv.Fields, fv)
 		}
 		return sv
 	case *types.Slice:
@@ -592,7 +600,7 @@ func (x *Exec) value(fr *Frame, st *State, v ssa.Value) SVal {
 	case *ssa.Global:
 		return &PtrV{IsNil: x.tb.False(), Obj: x.globalObj(st, c), Elem: c.Type().(*types.Pointer).Elem()}
 	case *ssa.Function:
-		return &FuncV{Fn: c, IsNil: x.tb.False(), Id: x.tb.Intc(int64(1000 + len(c.String())%7)), Sig: c.Signature, Name: c.String()}
+		return &FuncV{Fn: c, IsNil: x.tb.False(), Id: x.funcId(c.String()), Sig: c.Signature, Name: c.String()}
 	case *ssa.Builtin:
 		return &FuncV{Fn: c, IsNil: x.tb.False(), Name: c.Name()}
 	}
@@ -876,6 +884,14 @@ func (x *Exec) step(fr *Frame, st *State, ins ssa.Instruction) bool {
 		p := x.value(fr, st, v.X).(*PtrV)
 		x.safety(st, fr, "nil("+x.srcText(v.Pos())+")", tb.Not(p.IsNil), v.Pos())
 		st2 := p.Elem.Underlying().(*types.Struct)
+		if x.lockDiscipline && x.guarded[st2.Field(v.Field).Name()] && fr.depth <= 1 {
+			// guarded-by: this field may only be touched with the mutex held exclusively
+			cur, has := st.ghost["muState"]
+			if !has {
+				cur = tb.BVi(8, 0)
+			}
+			x.lockObl(st, fr, "guarded("+st2.Field(v.Field).Name()+"@"+x.srcText(v.Pos())+")", tb.Eq(cur.(*Term), tb.BVi(8, 2)), v.Pos())
+		}
 		np := &PtrV{IsNil: tb.False(), Obj: p.Obj, Idx: p.Idx, Path: append(append([]int(nil), p.Path...), v.Field), Elem: st2.Field(v.Field).Type()}
 		fr.env[v] = np
 	case *ssa.Field:
